@@ -347,6 +347,15 @@ def stft_case(case, res):
             if len(il) != len(zl) or max(abs(a - b) for a, b in zip(il, zl)) > tolf:
                 res.violation("istft|labels", f"labels {[float(v) for v in il]} differ from the original {[float(v) for v in zl]} "
                               f"[{sub}]", case, sub)
+            # the STFT signal is kept and inverted again: same answer (the first call must not have changed it)
+            try:
+                zi2 = pb.contrib.istft(s, nperseg=P)
+                res.transitions += 1
+                if not np.array_equal(np.asarray(zi2.data), np.asarray(zi.data)):
+                    res.violation("istft|second call on the same STFT object differs", f"istft(s) twice gives different samples "
+                                  f"(max diff {float(np.max(np.abs(np.asarray(zi2.data) - np.asarray(zi.data)))):.3g}) [{sub}]", case, sub)
+            except Exception as e:
+                res.violation("istft|second call raised", f"{type(e).__name__}: {e} [{sub}]", case, sub)
             if keep < N:
                 res.hits["truncated tail"] += 1
             if P % 2:
